@@ -223,6 +223,8 @@ class World:
 
     def gwf(self, argv, cwd_mode="root", stdin=None, kill_at=None, intr_at=None, io_fault=None, cmd_faults=()):
         cwd, pre = self.cwd_for(cwd_mode)
+        if self.knobs.get("verbose_flag") and "-v" not in argv and self.backend != "multi":
+            pre = pre + ["-v", self.knobs["verbose_flag"]]
         self.seam_count = 0
         self.kill_at = tuple(kill_at) if kill_at else None
         self.intr_at = intr_at
@@ -504,6 +506,7 @@ class World:
                           observable=obs, got=got)
             if got != want:
                 self.flag("C06", "status_mismatch", f"target {n}: gwf says {got}, expected {want}")
+                self.flag("C14", "healthy_client_wrong_view", f"target {n}: gwf says {got}, the pool's table implies {want}")
                 self.flag("C16", "status_mismatch", f"target {n}: gwf says {got}, expected {want}")
                 self.flag("C18", "status_mismatch", f"target {n}: gwf says {got}, expected {want}")
         self.states_seen.add(tuple(sorted(rows.items())))
